@@ -310,3 +310,7 @@ Definition chk_C07_writer (s : src) (cap : N) (short : bool) (buf written : text
   else if ok && negb (text_eqb written buf) then 3
   else if short && negb ok && negb (text_eqb written (take cap buf)) then 4
   else 0.
+
+(* ---------- C17 (tree part): the domain in which no observer may panic ---------- *)
+Definition chk_C17 (s : src) (o : tree_obs) : N :=
+  if negb (tree_wf s) then 100 else if k4_shape s then 100 else 0.
